@@ -78,3 +78,10 @@ def run(ctx):
     from ..engines import sizecheck as SCC
     SCC.s0_compositions(ctx)
     ctx.floor("S0", 4)
+    # the finder's specifications are built by the extractor over the searcher's equivalence database (round 10)
+    from ..engines import closure as G13
+    from ..engines import equivrules as Q13E
+    G13.g2_no_lhs_labels(ctx)
+    Q13E.k15_edges(ctx)
+    ctx.floor("G2", 2)
+    ctx.floor("K15", 3)
